@@ -1,8 +1,64 @@
-(* C06 — what the agent samples is what the server stores, in every wire format.  Headline theorems only. *)
+(* C06 — what the agent samples is what the server stores, in every wire format.  Headline theorems only.
+
+   profile_of ms        : the profile tree obtained by inserting the multiset ms of (stack, count) directly
+   render_groups ms     : "stack count\n" per entry            tree_via_groups : ParseGroups + Tree.Insert
+   render_lines ms      : the stack written count times         tree_via_lines  : ParseIndividualLines + Tree.Insert
+   trie_body ms         : Serialize of the agent's trie         tree_via_trie   : Deserialize, Iterate + Tree.Insert
+   entry_ok (k, v)      : k <> "", k has no '\n', k does not end in '\r', 1 <= v < 2^63, the text line is
+                          shorter than 64 KiB  (ProfileProofs.entry_ok)
+   tt_fitsb 1 1 t       : name lengths, child counts and values of the trie are below 2^64
+
+   The fourth format (the no-dict tree codec, tree.SerializeNoDict / DeserializeNoDict) is modelled in another
+   builder's Model/TreeCodec.v; its agreement with the multiset is established here by the correspondence run only
+   (the stored tree is compared in Coq with profile_of ms on every case), not by a theorem. *)
 From Coq Require Import Ascii.
-From Pyro Require Import Model.Base Model.TextFormats Model.Ingest Proofs.TextFormatsProofs.
+From Pyro Require Import Model.Base Model.Tree Model.Varint Model.TTrie Model.TextFormats Model.Ingest.
+From Pyro Require Import Proofs.TTrieProofs Proofs.TextFormatsProofs Proofs.ProfileProofs.
 
 Local Open Scope N_scope.
+
+(* the trie wire format loses nothing *)
+Theorem ttrie_roundtrip : forall t,
+  tt_wf t -> tt_name t = [] -> tt_fitsb 1 1 t = true ->
+  exists t', tt_deserialize (tt_serialize 1 1 t) = Some t' /\ tt_wf t' /\ tt_name t' = [] /\
+    (forall k, tt_den t' k = tt_den t k) /\
+    (forall K v, In (K, v) (tt_iterate t') <-> In (K, v) (tt_iterate t)).
+Proof. exact TTrieProofs.ttrie_roundtrip. Qed.
+Print Assumptions ttrie_roundtrip.
+
+(* Insert adds to one key and leaves every other key alone (shared with C18) *)
+Theorem ttrie_den_insert : forall key v merge t, tt_wf t ->
+  tt_wf (tt_insert key v merge t) /\
+  forall k, tt_den (tt_insert key v merge t) k =
+            if beqb k key then (if merge then tt_den t key + v else v) else tt_den t k.
+Proof. exact TTrieProofs.ttrie_den_insert. Qed.
+Print Assumptions ttrie_den_insert.
+
+(* the stored profile depends only on the positive counts per stack: order, repeats and splitting of
+   counts over several entries are not observable *)
+Theorem C06_profile_is_multiset : forall a b,
+  Forall (fun kv => 0 < snd kv) a -> Forall (fun kv => 0 < snd kv) b ->
+  (forall k, ms_count a k = ms_count b k) -> profile_of a = profile_of b.
+Proof. exact profile_of_equiv. Qed.
+Print Assumptions C06_profile_is_multiset.
+
+(* collapsed text, one stack per line and the binary trie all build the tree of the multiset itself *)
+Theorem C06_formats_agree : forall ms, Forall entry_ok ms -> tt_fitsb 1 1 (tt_of_multiset ms) = true ->
+  tree_via_groups (render_groups ms) = Some (profile_of ms) /\
+  tree_via_lines (render_lines ms) = Some (profile_of ms) /\
+  tree_via_trie (trie_body ms) = Some (profile_of ms).
+Proof. exact formats_agree. Qed.
+Print Assumptions C06_formats_agree.
+
+Example C06_formats_agree_nonvacuous :
+  let ms := [([109;97;105;110;59;102;111;111], 3); ([109;97;105;110;59;102;111;111;98;97;114], 2);
+             ([109;97;105;110], 1); ([120;32;121;59;195;169], 4); ([109;97;105;110;59;102;111;111], 5)] in
+  tt_fitsb 1 1 (tt_of_multiset ms) = true /\
+  tree_via_groups (render_groups ms) = Some (profile_of ms) /\
+  tree_via_lines (render_lines ms) = Some (profile_of ms) /\
+  tree_via_trie (trie_body ms) = Some (profile_of ms) /\
+  t_total (profile_of ms) = 15.
+Proof. vm_compute. repeat split. Qed.
 
 (* omitted parameters yield ('unknown', 100, 'samples', 'sum'), for every request *)
 Theorem C06_defaults : forall q ct,
@@ -12,3 +68,33 @@ Theorem C06_defaults : forall q ct,
   ip_spy ip = ascii "unknown" /\ ip_rate ip = 100 /\ ip_units ip = ascii "samples" /\ ip_aggregation ip = ascii "sum".
 Proof. exact ingest_defaults. Qed.
 Print Assumptions C06_defaults.
+
+(* the handler reads the uploader's query back as the job's own name, window (whole seconds), spy name, sample
+   rate, units and aggregation type, and selects the trie parser.
+   job_ok: times < 2^63, rate < 2^32, spy/units/aggregation not empty (an empty value would be replaced by the
+   default), and the decimal time strings are not 8 characters long (attime.Parse reads those as dates). *)
+Theorem C06_job_roundtrip : forall j, job_ok j ->
+  ingest_params_of (upload_query j) upload_content_type =
+  {| ip_format := FTrie; ip_name := j_name j;
+     ip_from := TUnix (Z.of_N (j_start j)); ip_until := TUnix (Z.of_N (j_end j));
+     ip_spy := j_spy j; ip_rate := j_rate j; ip_units := j_units j; ip_aggregation := j_aggregation j |}.
+Proof. exact job_roundtrip. Qed.
+Print Assumptions C06_job_roundtrip.
+
+Example C06_job_roundtrip_nonvacuous :
+  job_ok {| j_name := ascii "app.cpu{env=prod}"; j_start := 1609459200; j_end := 1609459210;
+            j_spy := ascii "gospy"; j_rate := 100; j_units := ascii "samples"; j_aggregation := ascii "sum" |}.
+Proof. unfold job_ok. cbn. repeat split; try discriminate; reflexivity. Qed.
+
+(* strconv.Atoi reads back what strconv.Itoa wrote *)
+Theorem C06_atoi_itoa : forall n, n < 2 ^ 63 -> atoi (itoa n) = Some (Z.of_N n).
+Proof. exact atoi_itoa. Qed.
+Print Assumptions C06_atoi_itoa.
+
+(* the hypotheses of C06_formats_agree are satisfiable: "main;foo" x3 and "x y;e" x2 *)
+Example C06_entry_ok_nonvacuous :
+  Forall entry_ok [([109;97;105;110;59;102;111;111], 3); ([120;32;121;59;101], 2)].
+Proof.
+  repeat constructor; cbn [fst snd]; try discriminate; try reflexivity;
+    try (intros s c E Hc; subst c; apply (f_equal (@rev _)) in E; rewrite rev_app_distr in E; cbn in E; discriminate).
+Qed.
